@@ -80,7 +80,13 @@ def histories(draw):
     for _ in range(draw(st.integers(4, 40))):
         k = draw(st.sampled_from(["new", "recompile", "recompile_same", "call", "call", "call", "cycle", "noise"]))
         ops.append([k, draw(st.integers(0, 5)), draw(st.integers(0, len(srcs) - 1)), draw(st.integers(0, 3))])
-    return {"sources": [s["prog"] for s in srcs], "inputs": inputs, "ops": ops}
+    case = {"sources": [s["prog"] for s in srcs], "inputs": inputs, "ops": ops}
+    if draw(st.booleans()):
+        # the sources as a user would write them: generated whitespace and comments between the tokens
+        from .. import gen_text
+
+        case["texts"] = [draw(gen_text.trivia_variant(M.program_tokens(s["prog"])))[0] for s in srcs]
+    return case
 
 
 NOISE = ['def n { return "a" weighted 1 } /* never closed', 'def n { /* open', "@@@", "", 'def n { return "a" weighted 1 } // */ def m { return "b" weighted 1 }',
@@ -95,7 +101,7 @@ def _canon(o):
 
 def judge(case):
     E = sut.evaluator_mod().ExperimentEvaluator
-    texts = [M.render(p) for p in case["sources"]]
+    texts = case.get("texts") or [M.render(p) for p in case["sources"]]
     table = {}
     contexts = {}
     viol = []
@@ -269,8 +275,11 @@ def fixed_histories():
         prog = M.program("exp", M.ret([(M.lit_str("g%d" % j), "1") for j in range(ng)]), salt=salt, splitters=["uid"])
         inputs = [M.enc_inputs({"uid": v}) for v in vals]
         n = len(vals)
-        ops = [["call", 0, 0, i] for i in range(n)] + [["new", 0, 0, n - 1]] + [["call", 1, 0, i] for i in reversed(range(n))]
-        ops += [["recompile_same", 0, 0, 3], ["cycle", 1, 0, 5]] + [["call", 0, 0, i] for i in (2, 1, 0, 6, 5, 4, 3)]
+        # evaluators #0 and #1 exist from the start (same source), "new" adds #2; results are keyed by (source, inputs), so
+        # every call below on any of the three must agree with the first observation
+        ops = [["call", 0, 0, i] for i in range(n)] + [["new", 0, 0, n - 1]] + [["call", 2, 0, i] for i in reversed(range(n))]
+        ops += [["recompile", 1, 0, 0]] + [["call", 1, 0, i] for i in (11, 3, 0, 2, 1)]
+        ops += [["recompile_same", 0, 0, 3], ["cycle", 2, 0, 5]] + [["call", 0, 0, i] for i in (2, 1, 0, 6, 5, 4, 3, 11)]
         yield {"sources": [prog, prog], "inputs": [inputs, inputs], "ops": ops, "plain": True}
 
 
